@@ -137,7 +137,11 @@ func cmdWorker(args []string) int {
 		}
 	}
 	for p := *enumFrom; p < *enumN; p += *enumStep {
-		c := simrt.NewSearchChooser(*seed, uint64(1<<40)+uint64(p))
+		stream := uint64(p)
+		if es, ok := e.(interface{ EnumStream(int) uint64 }); ok {
+			stream = es.EnumStream(p)
+		}
+		c := simrt.NewSearchChooser(*seed, uint64(1<<40)+stream)
 		res := runOne(e, c, p, o, stats, false)
 		nenum++
 		emit(res, uint64(1<<40)+uint64(p))
